@@ -200,6 +200,20 @@ func sequential(rep *report.Report) {
 			}
 		}
 	}
+	// audio-only gaps systematically: every gap start x every gap length (up to and beyond twice the
+	// fragment length, so that the audio path's forced cut is reached) — the gap may begin right after
+	// a key frame that has just opened a segment and video may resume in mid-GOP (seed C10-r5-m2)
+	gapGops := []int{5}
+	if rep.Thorough() {
+		gapGops = []int{3, 5, 7}
+	}
+	for _, gop := range gapGops {
+		for from := 6; from <= 16; from++ {
+			for length := 1; length <= 16; length++ {
+				cfgs = append(cfgs, cfgT{fmt.Sprintf("audio-only gap frames %d..%d gop%d", from, from+length, gop), from + length + 14, 200, gop, true, from, from + length, 1, rep.Thorough() && (from+length)%4 == 0, 0})
+			}
+		}
+	}
 	for _, c := range cfgs {
 		if rep.TimeUp() {
 			return
